@@ -111,6 +111,37 @@ func (h *harness) blockTxAll() {
 		}
 	}
 	h.blockTxImage(chainSpec{NoHeight: true}, "empty-db")
+	// databases the migration must refuse: every damage kind at the first, a middle and the last block
+	for _, kind := range []string{"drop-receipts", "drop-txs", "drop-header", "count+1", "drop-last-receipt"} {
+		for _, b := range []int{0, 13, 24} {
+			c := chainSpec{Seed: 17, Counts: repeatInt(2, 25), Layout: strings.Repeat("o", 25), Corrupt: []string{fmt.Sprintf("%s:%d", kind, b)}}
+			d, err := c.build()
+			if err != nil {
+				continue
+			}
+			o := runBlockTx(d, btPlan{}, false)
+			h.res.Case("corrupt|"+c.Corrupt[0], true)
+			h.res.Hit("bt-corrupt:" + kind + ":" + o.ret)
+			if o.ret == "hang" || o.ret == "panic" {
+				h.res.Violate(lib.Violation{Sig: "blocktx-migrate-" + o.ret, What: o.errText, Replay: btReplay{c, "run Migrate", 0}})
+				continue
+			}
+			h.bt.transition(c, d, o.final, "return", o.ret, "corrupt")
+			if o.ret == "done" {
+				// the damage was not noticed: then nothing readable may have been lost
+				for blk := uint64(0); blk <= c.height(); blk++ {
+					if int(blk) == b {
+						continue
+					}
+					if !sameView(readBlockCurrent(o.final, c, blk), c.expectedView(blk)) {
+						h.res.Violate(lib.Violation{Sig: "blocktx-content-differs-after-migration",
+							What: fmt.Sprintf("block %d damaged by migrating a database with damaged block %d", blk, b), Replay: btReplay{c, "run Migrate", blk}})
+						break
+					}
+				}
+			}
+		}
+	}
 	n := h.f.Scale(40, 600)
 	for i := 0; i < n; i++ {
 		h.blockTxHistory(h.genSpec(h.r.Fork(uint64(i))), h.f.Scale(14, 40))
